@@ -17,6 +17,7 @@ type rpGen struct {
 	mwBody  func(g *rpGen, id int) []Sx
 	depthMax int
 	lists    [][]Sx
+	dynamic  bool // some routes are dynamic ("/r7/{id}")
 	clean    bool // only clean spellings of prefixes and paths (strict mode keeps a trailing slash significant)
 }
 
@@ -158,6 +159,11 @@ func (g *rpGen) route(pfx string) Sx {
 	if pfx != "" && g.r.Chance(1, 10) { // a route path that repeats the prefix of its own groups is still prefixed
 		reg, path = pfx+path, pfx+path
 	}
+	reqPath := pfx + path
+	if g.dynamic && g.r.Chance(1, 4) { // a dynamic route (it goes through the route cache when caching is on)
+		reg, reqPath = reg+"/{id}", reqPath+"/"+fmt.Sprint(g.r.Intn(3))
+		reg = strings.Replace(reg, "//{id}", "/{id}", 1)
+	}
 	var later []Sx
 	if g.r.Chance(1, 3) {
 		later = g.mws(2)
@@ -171,7 +177,7 @@ func (g *rpGen) route(pfx string) Sx {
 	case 2, 3: // r.GET(path, main, mw...)
 		s.List = append(s.List, A("short"))
 	}
-	g.reqs = append(g.reqs, L(S("GET"), S(pfx+path), L()))
+	g.reqs = append(g.reqs, L(S("GET"), S(reqPath), L()))
 	g.routeIx++
 	return s
 }
@@ -307,7 +313,7 @@ func c04Gen(r *Rng, tier string, i int) Sx {
 	if i%16 == 15 {
 		return c04Long(r)
 	}
-	g := &rpGen{r: r, nextMW: 1, mwBody: c04Body, depthMax: r.Range(0, 4)}
+	g := &rpGen{r: r, nextMW: 1, mwBody: c04Body, depthMax: r.Range(0, 4), dynamic: r.Chance(1, 3)}
 	stmts := g.block(0, "", r.Range(1, 5))
 	if g.routeIx == 0 {
 		stmts = append(stmts, g.route(""))
@@ -348,7 +354,18 @@ func c04Gen(r *Rng, tier string, i int) Sx {
 			g.reqs = append(g.reqs, L(S("POST"), first.List[1], L()))
 		}
 	}
-	return g.finish(opts, stmts)
+	c := g.finish(opts, stmts)
+	if r.Chance(1, 6) && len(g.reqs) > 0 {
+		// late phase: global middleware added AFTER requests were served (possibly from the route cache), then the same requests again
+		opts = append(opts, L(A("cache"), I(r.Intn(4))))
+		var late []Sx
+		for k := r.Range(1, 2); k > 0; k-- {
+			late = append(late, L(A("use"), g.newMW()))
+		}
+		c = g.finish(opts, stmts)
+		c.List = append(c.List, L(A("late"), LS(late), LS(g.reqs)))
+	}
+	return c
 }
 
 func (g *rpGen) mwsFallback(code int) []Sx {
